@@ -185,9 +185,9 @@ fn c11_hist_1d_matrix_k3() {
 /// Cheapest 2-D matrix form: a fixed 2 x 1-bin grid, the rows of a 2x2 F-order matrix
 /// through `histogram()`; cell (i0, 0) must count the rows whose x lies in x-bin i0 and whose y lies
 /// in the single y-bin (so rows, not memory chunks, are the observations).
-//@ prop=C11,C20 tier=thorough mem=8 timeout=5400 inst="Histogram<u8> over a fixed 2x1-bin grid; observations = rows of a 2x2 F-order matrix" bounds="2 symbolic rows; unwind 8"
-#[kani::proof]
-#[kani::unwind(8)]
+// (not registered: 30-60 min and out of memory at 32 GB on the unchanged tree when re-tried; it did detect the C11 seed in 28 min) prop=C11,C20 tier=thorough mem=8 timeout=5400 inst="Histogram<u8> over a fixed 2x1-bin grid; observations = rows of a 2x2 F-order matrix" bounds="2 symbolic rows; unwind 8"
+#[allow(dead_code)]
+// #[kani::unwind(8)]
 fn c11_hist_2d_matrix_small() {
     const FX: [u8; 3] = [10, 20, 30];
     const FY: [u8; 2] = [5, 15];
